@@ -5,7 +5,8 @@
    model/LogqlPlan.v (tied to the Go planners byte for byte by checks/sqltext.py). *)
 From Coq Require Import List ZArith NArith QArith String Ascii Bool Permutation.
 From Qryn Require Import lib.Strs model.Sql model.Logql model.LogqlRegexp model.LogqlPlan model.SqlEval model.LogqlSem model.LogqlSemCheck
-  proofs.SqlEvalProofs proofs.LogqlSemProofs proofs.LogqlSemCheckProofs proofs.LogqlRegexpProofs proofs.LogqlSem2Base proofs.LogqlSem2Proofs.
+  proofs.SqlEvalProofs proofs.LogqlSemProofs proofs.LogqlSemCheckProofs proofs.LogqlRegexpProofs proofs.LogqlSem2Base proofs.LogqlSem2Proofs
+  model.LogqlSemZone proofs.LogqlSemZoneProofs.
 (* RG : ReGroups is the extraction oracle of the regexp stage (model/SqlEval.v); it is an implicit (type class) argument of
    the evaluator and of the reference semantics, universally quantified in every theorem below that names it; a statement
    that does not name it is about the default instance no_groups (no regexp stage can be evaluated). *)
@@ -385,3 +386,60 @@ Theorem logql_breakpoint_plan_all :
       /\ ts_sorted (c_asc c) outs.
 Proof. exact logql_breakpoint_plan_all_proof. Qed.
 Print Assumptions logql_breakpoint_plan_all.
+
+(* ---------- round 6: the zone of the reader process (seeded change C07-f) ----------
+   The services build the window with time.Unix(0, ns): a time in the zone of the PROCESS. FormatFromDate converts it to
+   UTC before it prints the day bound of the series-index reads, because the writer dates index rows by the UTC day. The
+   planner model therefore has no zone parameter, and the check plans every statement under a sweep of process zones
+   (harness logqlsql: ctx.tz, and one run under TZ=Asia/Tokyo) and requires the text of the zone-free model.
+   model/LogqlSemZone.v is the variant WITHOUT the conversion: zone_select off q c = the statement of log_select with every
+   date literal replaced by local_from_day off (c_from_ns c), the calendar day of a process `off` seconds east of UTC. *)
+
+(* logql_log_partial, word for word, is FALSE for a reader process in UTC+9: {app="billing"} |= "error" over
+   [2024-03-10T21:00Z, 22:00Z) and one stream whose index rows carry that UTC day only - the bound printed is 2024-03-11,
+   the stream is in no fingerprint set and the matching line is not returned (z_east_answer: the statement evaluates to
+   no row). The same witness is a row of corpus/C07/sem.jsonl, replayed on the real planners under that zone. *)
+Theorem day_bound_in_process_zone_refuted : ~ zone_stmt 32400.
+Proof. exact day_bound_in_process_zone_refuted_proof. Qed.
+Print Assumptions day_bound_in_process_zone_refuted.
+
+(* the hypotheses of zone_stmt are met by that witness; the statement of the planners as they are (and of the variant in
+   a UTC process, the same tree) returns the matching line with its stream's labels, so does the variant west of UTC
+   (New York); the variant in UTC+9 returns nothing *)
+Example day_bound_witness :
+  in_fragment z_query = true /\ oracle_ok no_re no_float z_query /\ ctx_ok z_ctx = true /\ db_ok z_ctx z_db
+  /\ width_guard z_query = true /\ absent_guard no_re z_query z_db
+  /\ (exists sel, log_select z_query z_ctx = Some sel /\ zone_select 0 z_query z_ctx = Some sel
+        /\ option_map (map row_out) (eval no_re no_float no_json no_hash tie_id (to_sqldb z_ctx z_db) sel) = Some [Some z_out])
+  /\ (exists sel, zone_select (-18000) z_query z_ctx = Some sel
+        /\ option_map (map row_out) (eval no_re no_float no_json no_hash tie_id (to_sqldb z_ctx z_db) sel) = Some [Some z_out])
+  /\ (exists sel, zone_select 32400 z_query z_ctx = Some sel
+        /\ eval no_re no_float no_json no_hash tie_id (to_sqldb z_ctx z_db) sel = Some []).
+Proof.
+  destruct z_guards as [H1 [H2 [H3 [H4 [H5 H6]]]]].
+  split; [exact H1|]. split; [exact H2|]. split; [exact H3|]. split; [exact H4|]. split; [exact H5|]. split; [exact H6|].
+  split; [exact z_utc_answer|]. split; [exact z_west_answer|exact z_east_answer].
+Qed.
+
+(* which windows: in a process 0 .. 24 h east of UTC the day printed without the conversion is the UTC day or the NEXT
+   one - the next one exactly when the UTC time of day of (start - 30 min) lies within the offset of midnight (for
+   UTC+9: every window that starts at or after 15:30 UTC); in a UTC process it is the UTC day (why no run in a UTC
+   container sees the change); west of UTC it is the UTC day or the one before, a bound that is never later than the
+   right one. The generator class process-zone of harness logqlsem puts its windows on exactly these intervals and edges. *)
+Theorem zone_day_utc_process : forall f, local_from_day 0 f = from_day f.
+Proof. exact local_from_day_utc. Qed.
+Print Assumptions zone_day_utc_process.
+Theorem zone_day_east_of_utc : forall off f, (0 <= off <= 86400)%Z ->
+  (from_day f <= local_from_day off f <= from_day f + 1)%Z
+  /\ (local_from_day off f = from_day f + 1 <->
+      (86400 - off) * 1000000000 <= (f - 1800 * 1000000000) mod (86400 * 1000000000))%Z.
+Proof. intros off f H. split; [exact (local_from_day_east off f H)|exact (local_from_day_east_next off f H)]. Qed.
+Print Assumptions zone_day_east_of_utc.
+Theorem zone_day_west_of_utc : forall off f, (-86400 <= off <= 0)%Z ->
+  (from_day f - 1 <= local_from_day off f <= from_day f)%Z.
+Proof. exact local_from_day_west. Qed.
+Print Assumptions zone_day_west_of_utc.
+Example zone_day_witness :
+  from_day (c_from_ns z_ctx) = 19792%Z /\ local_from_day 32400 (c_from_ns z_ctx) = 19793%Z
+  /\ local_from_day (-18000) (c_from_ns z_ctx) = 19792%Z.
+Proof. exact z_days. Qed.
